@@ -425,17 +425,21 @@ def selftest(ctx, segs, d):
     return n
 
 def crashed(rc, out, evs):
-    """a fault inside the library (pool thread touching a destroyed task ...) is an observation, not a rig failure"""
+    """a fault inside the library (pool thread touching a destroyed task ...) is an observation, not a rig failure; so is a pool
+    thread that does not come back from the library (the driver's bounded waits: join 30 s, quiesce 20 s, watchdog 120 s per line,
+    for task lives that take less than a second) - the driver ends the run at the first one"""
     c = [e for e in evs if e["e"] == "Crash"]
     if c: return "sig%s" % c[0].get("sig")
+    h = [e for e in evs if e["e"] == "Hang" and e.get("where") in ("join", "quiesce", "watchdog")]
+    if h: return "no-return:%s" % h[0]["where"]
     if rc != 0 and common.san_key(out):
         k = common.san_key(out); return "%s:%s" % (k[0], k[1])
     return None
 
 def process_batch(ctx, exe, bld, tasks, res, d, tag, seed, st, depth):
     rc, out, evs = res
-    bad = [e for e in evs if e["e"] in ("Hang", "BadOp")]
     cr = crashed(rc, out, evs)
+    bad = [e for e in evs if e["e"] == "BadOp" or (e["e"] == "Hang" and not (cr or "").startswith("no-return"))]
     if bad or (rc != 0 and not cr): raise common.Infra("task_drv batch %s (%s) rc=%s %s\n%s" % (tag, bld, rc, bad[:2], out[-1500:]))
     if not cr:
         validate_batch(ctx, exe, tasks, evs, d, tag, seed, st); return
@@ -449,6 +453,11 @@ def process_batch(ctx, exe, bld, tasks, res, d, tag, seed, st, depth):
         if segs:      # what the specification says about the life that ended in the fault
             notes, rej, _ = tlc_validate(segs[:1], d, tag + "c")
             report(ctx, exe, culprit, [n for _, n, _ in notes], rej, d, seed, st)
+        if cr.startswith("no-return") and ("task:fault-in-library:%s" % cr) in st["props"]:
+            # already reported (reproduced twice); every further occurrence costs the driver's bounded wait again: the task lives
+            # behind it are not run - the check ends with its verdict in bounded time
+            st["not_run_after_no_return"] = st.get("not_run_after_no_return", 0) + len(tasks) - nreset
+            return
         st["reruns"] += 1
         rc2, out2, evs2 = run_driver(exe, single_text(culprit), d, seed, "crash%d" % st["reruns"])
         cr2 = crashed(rc2, out2, evs2)
@@ -506,6 +515,7 @@ def run(ctx):
     ctx.add(traces_validated_against_impl=st["traces"], events_validated=st["events"], evaluations=st["traces"],
             distinct_nontrivial=st["traces"], scenario_kinds=kinds, builds=[b or "gcc-O1" for b in builds],
             trace_tlc_states=st["tlc_states"], reruns=st["reruns"], deviations_seen=st["devs"],
+            task_lives_not_run_after_reported_no_return=st.get("not_run_after_no_return", 0),
             samples=[{"scenario": jobs[0][1][0][1]}, {"scenario": jobs[0][1][6][1] if len(jobs[0][1]) > 6 else None}])
     ctx.cov["rule"] = ("one trace = one task life (create, start scheduled or direct, fragments written by the peer, close/shutdown/reset, "
                        "timeouts ordered by bounded waits, owner stop/enable/restart, destroy); every logged event (tpt_ev_* call, timerfd_settime, "
